@@ -22,6 +22,12 @@ Specials == {
   Note(One, "a note"), Note(Lit(StrD(Sa), <<R("minLength", NV(N1))>>), "note after rules"),
   Note(Obj(<<P(Ka, Note(One, "first")), P(Kb, Note(Lit(StrD(Sa), <<OptR>>), "second"))>>, <<R("additionalProperties", BV(TRUE))>>), "object note"),
   Note(Arr(<<Note(One, "i0"), Lit(StrD(Sa), <<NullR>>)>>, <<R("minItems", NV(N1)), R("maxItems", NV(N5))>>), "array note"),
+  \* rules followed by a dash and nothing else: an empty note, the annotation ends with its line
+  Obj(<<P(Ka, Lit(NumD(N1), <<R("min", NV(N0))>>) @@ [dash |-> TRUE]), P(Kb, Lit(NumD(N2), <<>>))>>, <<>>),
+  Arr(<<Lit(NumD(N1), <<R("min", NV(N0))>>) @@ [dash |-> TRUE]>>, <<R("minItems", NV(N1))>>) @@ [dash |-> TRUE],
+  \* a key shortcut after a property whose line ends in an annotation (with a note, without one)
+  Obj(<<P(Ka, Note(Lit(NumD(N1), <<R("min", NV(N0))>>), "the id")), SC("@K", Lit(NumD(N2), <<>>))>>, <<>>),
+  Obj(<<P(Ka, Lit(NumD(N1), <<OptR>>)), SC("@K", Lit(NumD(N2), <<OptR>>)), P(Kb, One)>>, <<>>),
   \* a note after the closing brace belongs to the object; the notes of the properties inside stay theirs
   Obj(<<P(Ka, Note(One, "x")), P(Kb, Lit(StrD(Sa), <<OptR>>))>>, <<>>) @@ [tnote |-> "after the brace"],
   Obj(<<P(Ka, Obj(<<P(Kb, Note(One, "inner"))>>, <<>>) @@ [tnote |-> "after a"]), P(Kc, Note(One, "c"))>>, <<>>) @@ [tnote |-> "end"],
